@@ -62,7 +62,7 @@ def shards(tier):
 def floors(tier):
     f = {"histories": 4000, "operations": 60000, "histories_with_legacy_interface_resolver": 500, "abandon_at_scope_depth3plus": 200, "exception_unwound_2plus_scopes": 200,
          "fail_then_succeed_retrievals": 100, "scope_events": 100000, "max_scope_depth": 4, "results_compared": 15000,
-         "results_refres_while_failing": 200, "long_lived_resolver_documents": 2000}
+         "results_refres_while_failing": 200, "long_lived_resolver_documents": 2000, "purity_battery_calls": 8000}
     for op in ("is_valid", "exhaust", "validate", "take_close", "take_drop", "throw", "resolve", "resolving", "in_scope",
                "toggle_handler", "toggle_callout"):
         f["op:" + op] = 200
@@ -664,8 +664,96 @@ def long_lived_resolver(ctx, n_docs):
                           "documents retrieved earlier (cache_remote on) were fetched again: %r" % calls[n_calls:][:3])
 
 
+def _ids(x, acc):
+    if isinstance(x, dict):
+        acc.append(id(x))
+        for v in x.values():
+            _ids(v, acc)
+    elif isinstance(x, list):
+        acc.append(id(x))
+        for v in x:
+            _ids(v, acc)
+    return acc
+
+
+UNSORTED = [[[3, 1], [2, 9], [1, 5]], [["b"], ["a"]], [3, 1, 2], ["b", "a", "c"], [[2, [1, 0]], [1, [9, 8]]], [{"b": 1, "a": 2}, {"a": 0}], {"z": 1, "a": [2, 1], "m": {"y": 0, "b": [[1], [0]]}},
+            [[], [1], []], [[1.5, 1], [1, 1.0]], [["x", 1], [1, "x"]], [None, [None], [[None]]], {"k": [[3], [2], [1]], "a": "s", "b": "t"}, [[True, 0], [False, 1]], "plain", 7]
+
+
+def purity_battery(ctx):
+    """Every keyword of every draft over nested, deliberately UNSORTED containers: after each entry point the instance and the
+    schema read exactly as before (same text, members and elements in the same order, the very same container objects)."""
+    import copy
+    import jsonschema
+    from vf.gen.schema import SchemaGen
+    n = 0
+    for d in impl.DRAFTS:
+        cls = impl.CLS[d]
+        rng = random.Random(77 + d)
+        g = SchemaGen(rng, d, maxdepth=1)
+        mo = "divisibleBy" if d == 3 else "multipleOf"
+        schemas = [{"uniqueItems": True}, {"items": {"uniqueItems": True}}, {"uniqueItems": True, "items": [{"maxItems": 1}, {"minItems": 9}]}, {"enum": [[[1, 5], [2, 9], [3, 1]], ["a", "b"]]},
+                   {"properties": {"a": {"uniqueItems": True}, "k": {"uniqueItems": True, "items": {"enum": [[1], [2]]}}}, "additionalProperties": {"type": "string"}},
+                   {"dependencies": {"z": "a" if d == 3 else ["a"], "a": {"required": ["m"]} if d != 3 else {"properties": {"m": {"required": True}}}}},
+                   {"patternProperties": {"^[a-z]$": {"uniqueItems": True}}, "additionalProperties": False}, {"items": [{"uniqueItems": True}], "additionalItems": {"uniqueItems": True, "maxItems": 1}},
+                   {"type": ["array", "object"], "minItems": 4, mo: 2}, {"extends": [{"uniqueItems": True}, {"items": {"uniqueItems": True}}]} if d == 3 else {"allOf": [{"uniqueItems": True}, {"items": {"uniqueItems": True}}]}]
+        if d >= 6:
+            schemas += [{"const": [[3, 1], [2, 9]]}, {"contains": {"uniqueItems": True, "minItems": 2}}, {"propertyNames": {"enum": ["z", "a"]}}]
+        if d >= 7:
+            schemas += [{"if": {"uniqueItems": True}, "then": {"items": {"uniqueItems": True}}, "else": {"maxItems": 0}}]
+        if d != 3:
+            schemas += [{"required": ["m", "a", "b"]}, {"anyOf": [{"uniqueItems": True, "maxItems": 1}, {"items": {"enum": [[1]]}}]}, {"oneOf": [{"uniqueItems": True}, {"items": {"uniqueItems": True}}]}, {"not": {"uniqueItems": True}}]
+        for k in sorted(cls.VALIDATORS):
+            if k in ("$ref", "format"):
+                continue
+            try:
+                schemas.append(g.keyword_schema(k))
+            except Exception:
+                pass
+        for S in schemas:
+            try:
+                if not impl.accepts(d, S):
+                    continue
+            except Exception:
+                continue
+            for inst0 in UNSORTED:
+                n += 1
+                if not ctx.mine(n):
+                    continue
+                for how in ("is_valid", "iter_errors", "validate", "module validate", "take one, drop"):
+                    inst, schema = copy.deepcopy(inst0), copy.deepcopy(S)
+                    before = (repr(inst), _ids(inst, []), repr(schema), _ids(schema, []))
+                    ctx.count("purity_battery_calls")
+                    try:
+                        v = cls(schema)
+                        if how == "is_valid":
+                            v.is_valid(inst)
+                        elif how == "iter_errors":
+                            list(v.iter_errors(inst))
+                        elif how == "validate":
+                            v.validate(inst)
+                        elif how == "module validate":
+                            jsonschema.validate(inst, schema, cls=cls)
+                        else:
+                            it = v.iter_errors(inst)
+                            next(it, None)
+                            del it
+                    except X.ValidationError:
+                        pass
+                    except Exception as e:
+                        ctx.count("purity_battery_exception_delegated_to_C03")
+                        continue
+                    after = (repr(inst), _ids(inst, []), repr(schema), _ids(schema, []))
+                    if after != before:
+                        what = "instance" if after[:2] != before[:2] else "schema"
+                        ctx.violation("input-modified", {"draft": d, "schema": S, "instance": inst0, "entry_point": how, "purity_battery": True},
+                                      "%s changed the %s: %s -> %s" % (how, what, (before[0] if what == "instance" else before[2])[:120], (after[0] if what == "instance" else after[2])[:120]))
+                        break
+
+
 def run(ctx):
     impl.quiet()
+    purity_battery(ctx)
     if ctx.shard == 0:
         long_lived_resolver(ctx, ctx.scale(700, 5000))
     if ctx.tier == "thorough":
@@ -706,6 +794,15 @@ def run(ctx):
 
 
 def replay(ctx, rec):
+    if rec["case"].get("purity_battery"):
+        impl.quiet()
+        ctx.nshards, ctx.shard = 1, 0
+        purity_battery(ctx)
+        return
+    return _replay(ctx, rec)
+
+
+def _replay(ctx, rec):
     impl.quiet()
     if rec["case"].get("long_lived_resolver"):
         long_lived_resolver(ctx, int(rec["case"].get("documents", 700)))
